@@ -39,7 +39,7 @@ class C13(Check):
             "duplicates, curve-like (two points hold all extremes); k in 0..N with the limits of the pruning range over-represented, and blocks that sweep every k from N-M-1 to N "
             "on small 3+ objective fronts for all pruning metrics and both engines; values compared bit-exactly with the models of metrics.py, misc/*.py and of the compiled kernels (checked flat buffers; np.log2 and "
             "np.argpartition answers recorded as oracles); independent reference implementations of the published definitions on tie-free fronts; "
-            "15% of the random cases hand the front over in another memory layout, 15% ask the same operator object about the same front with another n_remove first; non-trivial = more than two points; distinct by hash")
+            "15% of the random cases hand the front over in another memory layout, 15% ask the same operator object about the same front with another n_remove first; non-trivial = more than two points; distinct by hash; 2% of the draws expand into a front with no more points than objectives (+1), curve-like half of the time, on which every metric is run on both engines with n_remove in {0, 1, N-1}")
     ASSUMPTIONS = ["np.log2 (libm) and np.argpartition (introselect tie choice) are oracles; the argpartition answer is validated (mnn0_ok) by the model",
                    "the compiled kernels are modelled from the .pyx and tied to the shipped .so by bit-exact runs; the Cython -> C++ translation and the compiler are trusted",
                    "equality with the published definitions is decided by correspondence + independent reference implementations, not by a theorem (partial)"]
@@ -62,6 +62,22 @@ class C13(Check):
                             continue          # compiled pcd with 3+ objectives: known finding, exercised by the random cases
                         for k in range(max(0, N - M - 1), N + 1):
                             yield {"F": enc(F), "style": style, "label": label, "n_remove": k, "engine": eng}
+                continue
+            if self.rng.random() < 0.02:
+                # fronts with no more points than objectives (+1), systematically: every metric on both engines.  On a curve-like front
+                # only the two end points hold extremes, so the other points have finite values although N <= n_obj
+                M = self.rng.choice([3, 4, 5])
+                for _try in range(40):
+                    F, style = crowd.gen_front(self.rng, max_n=M + 1, objs=(M,), styles=["curve", "curve", "simplex", "perm"])
+                    if len(F) >= 3:
+                        break
+                N = len(F)
+                for label in self.LABELS:
+                    for eng in ("fallback", "compiled"):
+                        if label == "pcd" and eng == "compiled":
+                            continue          # compiled pcd with 3+ objectives: known finding, exercised by the random cases
+                        for k in sorted({0, 1, N - 1}):
+                            yield {"F": enc(F), "style": style + "-short", "label": label, "n_remove": k, "engine": eng}
                 continue
             F, style = crowd.gen_front(self.rng)
             label = self.rng.choice(self.LABELS)
